@@ -450,15 +450,46 @@ theorem go_just : ∀ e, Just1 e := by
     simp only [Option.some.injEq, Prod.mk.injEq] at h
     obtain ⟨_, _, rfl⟩ := h
     exact (mark_absurd l1 hd).elim
-  · intro i info args _ exp G Γ s t Γ' s' h hd B hB hΓ
-    obtain ⟨t1, Γ1, s1, h1, l1⟩ := go_le (.constr i info args) exp G Γ s.mark
-    have e : go (.constr i info args) exp G Γ s = go (.constr i info args) exp G Γ s.mark := by
+  -- constr
+  · intro i info args ih exp G Γ s t Γ' s' h hd B hB hΓ
+    rcases info with _ | _ | ⟨cty, arity⟩
+    · rw [go] at h; exact absurd_err h hd
+    · rw [go] at h; exact absurd_err h hd
+    · rw [go] at h
+      dsimp only at h
+      split at h
+      · exact absurd_err h hd
+      · cases hps : (ctorParams (s.inst cty).1).isEmpty with
+        | true =>
+          obtain ⟨ts, Γ1, s1, h1, l1⟩ := (goL_le args).1 G Γ (s.inst cty).2
+          simp only [hps, if_true, h1] at h
+          obtain ⟨rfl, rfl, lf, hexp⟩ := finish_inv h
+          simp only [binders] at hB
+          have L1 : Le s1 s' := (le_push _ _).trans lf
+          obtain ⟨e1, j1⟩ := ih.1 G Γ _ ts _ s1 h1 (L1.nodiag hd) B hB hΓ
+          refine ⟨e1, ?_, hexp⟩
+          simp only [obls]
+          refine JL.append (j1.mono L1) (JL.one ?_)
+          cases hts : ts.isEmpty <;> simp only [hts, if_true, Bool.false_eq_true, if_false] <;>
+            exact Or.inr (lf.mem _ (by simp [St.push, hts]))
+        | false =>
+          obtain ⟨ts, Γ1, s1, h1, l1⟩ := (goL_le args).2.1 (ctorParams (s.inst cty).1) G Γ (s.inst cty).2
+          simp only [hps, Bool.false_eq_true, if_false, h1] at h
+          obtain ⟨rfl, rfl, lf, hexp⟩ := finish_inv h
+          simp only [binders] at hB
+          have L1 : Le s1 s' := (le_push _ _).trans lf
+          obtain ⟨e1, j1⟩ := ih.2.1 _ G Γ _ ts _ s1 h1 (L1.nodiag hd) B hB hΓ
+          refine ⟨e1, ?_, hexp⟩
+          simp only [obls]
+          refine JL.append (j1.mono L1) (JL.one ?_)
+          cases hts : ts.isEmpty <;> simp only [hts, if_true, Bool.false_eq_true, if_false] <;>
+            exact Or.inr (lf.mem _ (by simp [St.push, hts]))
+  · intro i info idxs args _ exp G Γ s t Γ' s' h hd B hB hΓ
+    obtain ⟨t1, Γ1, s1, h1, l1⟩ := go_le (.slit i info idxs args) exp G Γ s.mark
+    have e : go (.slit i info idxs args) exp G Γ s = go (.slit i info idxs args) exp G Γ s.mark := by
       cases info with
       | none => rw [go, go]; rfl
-      | some o =>
-        cases o with
-        | none => rw [go, go]; rfl
-        | some pr => rw [go, go]; rfl
+      | some pr => rw [go, go]; rfl
     rw [e, h1] at h
     simp only [Option.some.injEq, Prod.mk.injEq] at h
     obtain ⟨_, _, rfl⟩ := h
